@@ -148,11 +148,16 @@ def obs_sig(v):
                 expected=(d.get("expected") or {}).get("t"), got=(d.get("got") or {}).get("t"))
 
 
-def spread(beh, lo, hi):
-    """Spread the (expensive to validate) behaviours in lines [lo, hi) evenly over the file, so that the parallel validator
-    chunks get equal work.  Done before the harness runs: run ids are line numbers."""
+def spread(beh, lo, hi=None):
+    """Spread the (expensive to validate) behaviours in lines [lo, hi) -- or in every range of the list `lo` -- evenly over the
+    file, so that the parallel validator chunks get equal work.  Done before the harness runs: run ids are line numbers."""
+    ranges = [(lo, hi)] if hi is not None else list(lo)
     lines = open(beh).read().splitlines()
-    heavy, rest = lines[lo:hi], lines[:lo] + lines[hi:]
+    pick = set()
+    for a, b in ranges:
+        pick.update(range(a, min(b, len(lines))))
+    heavy = [l for i, l in enumerate(lines) if i in pick]
+    rest = [l for i, l in enumerate(lines) if i not in pick]
     if not heavy or not rest:
         return
     step = len(rest) / float(len(heavy))
@@ -701,7 +706,7 @@ def ad_plans(prop, quick):
                                             PipeFlavs=both), sim_n(500, 6000))]
     if prop == "C11":
         K = {"sort", "sort_by", "sort_by_key"}
-        return [big(K), bigtree(K, {1}, both), ("GSpec", "edge", ad_base(StageKinds=K, Depth=D, InitLens={3}, MaxLen=4, PipeFlavs={"batched"}), 0),
+        return [big(K), bigtree(K, {1}, {"batched"}), ("GSpec", "edge", ad_base(StageKinds=K, Depth=D, InitLens={3}, MaxLen=4, PipeFlavs={"batched"}), 0),
                 ("GSpecCore", "tree", ad_base(StageKinds=K, Depth=D, CoreSet="full", InitLens={3}, MaxLen=5, PipeFlavs={"plain"}), 0),
                 ("GSpec", "edge", ad_base(StageKinds=K, Depth=D, Caps={1}, InitLens={2}, MaxLen=3), 0),
                 ("GSpecTxnSmall", "edge", ad_base(StageKinds=K, Depth=D + 2, InitLens={3}, MaxLen=5), 0),
@@ -939,7 +944,7 @@ def adapters_pipeline(prop, tier, seed, work, t0):
     beh = os.path.join(work, "beh.ndjson")
     n = 0
     gstates = gtrans = 0
-    big_range = None
+    big_range = []
     for j, (spec, mode, consts, num) in enumerate(ad_plans(prop, quick)):
         c = os.path.join(work, "Gen%d.cfg" % j)
         if mode == "edge":
@@ -956,12 +961,12 @@ def adapters_pipeline(prop, tier, seed, work, t0):
             write_cfg(c, spec=spec, constants=consts, constraints=["BoundTree"], invariants=["PrintAtDepth"])
             k, r = gen_behaviours("GenAdapters", c, work, beh, "sim", num=num, depth=consts["Depth"] + 1, seed=seed + j, tag="g%d" % j,
                                   timeout=3000)
-        if spec == "GSpecBig":
-            big_range = (n, n + k)
+        if spec in ("GSpecBig", "GSpecBigTree"):
+            big_range.append((n, n + k))
         n += k
         log("gen %s %s: %d (%.1fs)" % (spec, mode, k, r["wall"]))
     if big_range:
-        spread(beh, *big_range)
+        spread(beh, big_range)
     driver_policy(beh, 2)
     trace = os.path.join(work, "trace.ndjson")
     hrc = run_harness(["adapters-replay", beh, trace])
